@@ -46,7 +46,14 @@ def r1(ctx):
     ens = Ensures(f, r"migrations::run_migration$")
     ok, why = ens.ensures_body(rm)
     ctx.check(ok, "C18.R1", rm.path, "errors-propagate", why, rm.sp)
-    ctx.floor("C18.R1", 3)
+    # must-pass-through, per migration: no success return of run_migrations without that migration having succeeded
+    # (an early `return Ok(())` in front of some of them leaves a derived table unbuilt for the databases that take it)
+    for mig in ("migration_001", "migration_002", "migration_003", "migration_004"):
+        e1 = Ensures(f, r"migrations::run_migration$")
+        e1.is_guard_call = (lambda t, depth, mig=mig: callee_matches(t, r"migrations::run_migration$") and any(d and mig in d for d in t["f"].get("tdefs", [])))
+        ok1, why1 = e1.ensures_body(rm)
+        ctx.check(ok1, "C18.R1", rm.path, "every-success-return-passed[%s]" % mig, why1, rm.sp)
+    ctx.floor("C18.R1", 7)
 
 
 def _components(body, op, names):
